@@ -511,9 +511,7 @@ class Interp:
         if isgen is None:
             isgen = any(isinstance(n, (ast.Yield, ast.YieldFrom)) for n in ast.walk(func.node))
             self._gen_cache[id(func.node)] = isgen
-        if isgen:
-            self.run.event("call_generator", func=qn, args=args, kwargs=kwargs, node=node)
-            return Unknown(self.run.new_tag(f"{qn}(...)"), {"generator": qn})
+        gen_mode = bool(isgen)
         a = func.node.args
         params = [x.arg for x in a.posonlyargs + a.args]
         locals_: Dict[str, Value] = {}
@@ -551,15 +549,18 @@ class Interp:
             if pname not in locals_:
                 self.raise_exc("TypeError", [Str.lit(f"missing argument {pname} for {qn}")], node, caller)
         fr = Frame(func.module, func, locals_, closure, self_val if not func.is_static else None, func.cls)
+        if gen_mode:
+            # a generator is evaluated eagerly: the list of the values it yields, in order
+            fr.locals["$yields"] = ListV([])
         self.run.depth += 1
         if self.run.depth > 80:
             raise self.unsupported(f"call depth exceeded in {qn}", node, caller)
         self.run.event("enter", func=qn, node=node, frame=fr)
         try:
             self.exec_block(func.node.body, fr)
-            return NONE
+            return fr.locals["$yields"] if gen_mode else NONE
         except ReturnEx as r:
-            return r.value
+            return fr.locals["$yields"] if gen_mode else r.value
         finally:
             self.run.depth -= 1
 
@@ -1169,4 +1170,15 @@ class Interp:
         raise self.unsupported("await", e, fr)
 
     def ex_Yield(self, e: ast.Yield, fr: Frame) -> Value:
-        raise self.unsupported("yield", e, fr)
+        ys = fr.locals.get("$yields")
+        if not isinstance(ys, ListV):
+            raise self.unsupported("yield outside an eagerly evaluated generator", e, fr)
+        self.bi.list_append(ys, self.eval(e.value, fr) if e.value is not None else NONE, e, fr)
+        return NONE
+
+    def ex_YieldFrom(self, e: ast.YieldFrom, fr: Frame) -> Value:
+        ys = fr.locals.get("$yields")
+        if not isinstance(ys, ListV):
+            raise self.unsupported("yield from outside an eagerly evaluated generator", e, fr)
+        self.bi.list_extend(ys, self.eval(e.value, fr), e, fr)
+        return NONE
